@@ -11,7 +11,7 @@ Classes == {"ok", "empty", "blank", "comment", "prefix", "quote", "multiline", "
 ClassNo(c) == CASE c = "ok" -> 0 [] c = "empty" -> 1 [] c = "blank" -> 2 [] c = "comment" -> 3 [] c = "prefix" -> 4 [] c = "quote" -> 5
                 [] c = "multiline" -> 6 [] c = "inject" -> 7 [] c = "template" -> 8 [] c = "long" -> 9 [] c = "unicode" -> 10
                 [] c = "userfirst" -> 11 [] c = "directive" -> 12 [] c = "noop" -> 13 [] c = "ctl" -> 14 [] c = "dollar" -> 15
-                [] c = "rtdo" -> 16 [] c = "rtexpr" -> 17 [] c = "rtloop" -> 18 [] c = "rthang" -> 19 [] c = "inlinetmpl" -> 20 [] c = "botvar" -> 21
+                [] c = "rtdo" -> 16 [] c = "rtexpr" -> 17 [] c = "rtloop" -> 18 [] c = "rthang" -> 19 [] c = "inlinetmpl" -> 20 [] c = "botvar" -> 21 [] c = "oddlit" -> 22
 Modes == {"dialog", "single", "general", "multistep", "v2", "v2gen"}
 (* call positions (tasks) of a turn per mode *)
 Tasks(m) == CASE m = "dialog"    -> <<"generate_user_intent", "generate_next_steps", "generate_bot_message">>
@@ -25,14 +25,14 @@ Tasks(m) == CASE m = "dialog"    -> <<"generate_user_intent", "generate_next_ste
    the answer is run as a flow, i.e. at generate_next_steps of the multi-step mode; "rthang" (a label/goto loop that never
    returns) costs a watchdog timeout per script and is combined with well-formed answers at the other positions only *)
 RunClasses == {"rtdo", "rtexpr", "rtloop"}
-GenClasses == IF GenFull THEN {"ok", "empty", "blank", "comment", "quote", "multiline", "inject", "template", "long", "dollar", "directive", "ctl", "rtexpr"}
-              ELSE {"ok", "empty", "quote", "multiline", "inject", "template", "long", "dollar", "rtexpr"}
+GenClasses == IF GenFull THEN {"ok", "empty", "blank", "comment", "quote", "multiline", "inject", "template", "long", "dollar", "directive", "ctl", "rtexpr", "oddlit"}
+              ELSE {"ok", "empty", "quote", "multiline", "inject", "template", "long", "dollar", "rtexpr", "oddlit"}
 (* "inlinetmpl": a generated flow that carries its message text inline, with template syntax in it; "botvar": a next step
    `bot $variable ...` followed by template syntax *)
 PosClasses(m, i) == IF m = "multistep" /\ i = 2 THEN Classes \cup RunClasses \cup {"inlinetmpl", "botvar"}
                     ELSE IF m = "dialog" /\ i = 2 THEN Classes \cup {"botvar"}
                     ELSE IF m = "v2gen" THEN GenClasses ELSE Classes
-TurnVecs(m) == {v \in [1..Len(Tasks(m)) -> Classes \cup RunClasses \cup {"inlinetmpl", "botvar"}] : \A i \in 1..Len(Tasks(m)) : v[i] \in PosClasses(m, i)}
+TurnVecs(m) == {v \in [1..Len(Tasks(m)) -> Classes \cup RunClasses \cup {"inlinetmpl", "botvar", "oddlit"}] : \A i \in 1..Len(Tasks(m)) : v[i] \in PosClasses(m, i)}
 HangVec == <<"ok", "rthang", "ok">>
 OkVec == <<"ok", "ok", "ok">>
 \* Scripts (documentation only; too large to construct as a set for two turns)
